@@ -75,6 +75,26 @@ func body(fine bool) func() {
 		w := fx.Start(bus.Yes{})
 		c1, c2, c3 := w.MustConnect(), w.MustConnect(), w.MustConnect()
 		p1, p2, p3 := c1.Probe(1), c2.Probe(1), c3.Probe(1)
+		// two more subscribers registered BEFORE the observed one (so that it
+		// is the last entry of the server's table); the middle one leaves
+		// while the writes are going on
+		var events4 []int32
+		c4, c5 := w.MustConnect(), w.MustConnect()
+		_, ch4, err4 := c4.Probe(1).SubscribeLevel()
+		cancel5, ch5, err5 := c5.Probe(1).SubscribeLevel()
+		if err4 != nil || err5 != nil {
+			vrt.Failf("harness/subscribe", "%v %v", err4, err5)
+			return
+		}
+		vrt.GoNamed("event-drain-4", func() {
+			for v := range ch4 {
+				events4 = append(events4, v)
+			}
+		})
+		vrt.GoNamed("event-drain-5", func() {
+			for range ch5 {
+			}
+		})
 		var events []int32
 		_, ch, err := p3.SubscribeLevel()
 		if err != nil {
@@ -144,9 +164,12 @@ func body(fine bool) func() {
 		})
 		w3 := vrt.GoWorker("service", func() {
 			set(3, 9, func() error { return w.Root.Helper.UpdateLevel(9) })
+			// a service-side update refused by the service's own validator
+			set(3, -3, func() error { return w.Root.Helper.UpdateLevel(-3) })
 		})
+		w4 := vrt.GoWorker("leaver", func() { cancel5() })
 		vrt.Quiesce()
-		fx.Settle(w1, w2, w3)
+		fx.Settle(w1, w2, w3, w4)
 		if wrongAccepted != "" {
 			vrt.Failf("wrongly-typed-write-accepted/"+wrongAccepted, "setProperty(level, %s) reported success", wrongAccepted)
 		}
@@ -175,6 +198,11 @@ func body(fine bool) func() {
 		if fmt.Sprint(a) != fmt.Sprint(e) {
 			vrt.Failf("events-differ-from-accepted-writes/"+variant, "accepted writes %v, change events received %v", a, e)
 		}
+		e4 := append([]int32(nil), events4...)
+		sort.Slice(e4, func(i, j int) bool { return e4[i] < e4[j] })
+		if fmt.Sprint(a) != fmt.Sprint(e4) {
+			vrt.Failf("events-differ-from-accepted-writes-other-subscriber/"+variant, "accepted writes %v, change events received by the first subscriber %v", a, e4)
+		}
 		if len(w.Root.Rejected) > 0 {
 			vrt.Flag("validator-rejected")
 		}
@@ -187,7 +215,7 @@ func body(fine bool) func() {
 
 func init() {
 	reg.Register(&reg.Scenario{Property: "C14", Name: "three-writers", Body: body(false), Quick: 1, Thorough: 2,
-		Doc: "client1: set 5, get || client2: one of {set 7, set -1, three wrongly-typed sets, set by id}, get || service: update 9; one subscriber; porcupine against a register",
+		Doc: "client1: set 5, get || client2: one of {set 7, set -1, three wrongly-typed sets, set by id}, get || service: update 9, update -3 || the middle one of three subscribers leaves; porcupine against a register",
 		MustFlag: []string{"validator-rejected", "writes-reordered"}})
 	reg.Register(&reg.Scenario{Property: "C14", Name: "three-writers-statement-level", Body: body(true), Quick: -1, Thorough: 1,
 		Doc: "same with bus/object.go interleaved at statement level"})
